@@ -24,7 +24,7 @@ type incarnation struct {
 var registry = map[string]*incarnation{}
 
 // Reset forgets every server (start of an execution).
-func Reset() { registry = map[string]*incarnation{} }
+func Reset() { registry = map[string]*incarnation{}; epoch = 0 }
 
 // Serve makes handler (a pointer whose exported methods have the net/rpc shape) reachable at addr.
 func Serve(addr string, handler any) {
@@ -45,7 +45,14 @@ func Kill(addr string) {
 type Client struct {
 	in     *incarnation
 	closed bool
+	epoch  int // connections of an older epoch were reset by the network
 }
+
+var epoch int
+
+// Blip resets every established connection (a network interruption): the servers stay up, calls over the old
+// connections fail, new dials succeed.
+func Blip() { epoch++ }
 
 func Dial(network, address string) (*Client, error) {
 	vrt.Yield(-6)
@@ -53,7 +60,7 @@ func Dial(network, address string) (*Client, error) {
 	if in == nil || !in.alive {
 		return nil, fmt.Errorf("dial %s %s: connection refused", network, address)
 	}
-	return &Client{in: in}, nil
+	return &Client{in: in, epoch: epoch}, nil
 }
 
 func (c *Client) Close() error {
@@ -67,7 +74,7 @@ func (c *Client) Close() error {
 // Call invokes "Type.Method" on the handler of the incarnation this connection was dialled to.
 func (c *Client) Call(serviceMethod string, args any, reply any) error {
 	vrt.Yield(-6)
-	if c.closed || c.in == nil || !c.in.alive {
+	if c.closed || c.in == nil || !c.in.alive || c.epoch != epoch {
 		return ErrShutdown
 	}
 	name := serviceMethod
